@@ -371,6 +371,11 @@ pub fn run(a: &Args) {
             continue;
         }
         let g = grammar::random_grammar(&mut rng, &cfg);
+        if case % 10 == 8 {
+            let t = grammar::with_many_tokens(&g.render(), &mut rng);
+            emit(&mut out, &t, None, &mut rng, "random_many_tokens");
+            continue;
+        }
         emit(&mut out, &g.render(), None, &mut rng, "random");
     }
     out.finish(&a.out);
